@@ -1,6 +1,154 @@
 package verifsim
 
-// race mode placeholder (implemented in race.go once the stepped mode is settled)
+import (
+	"bytes"
+	"encoding/json"
+	"fmt"
+	"os"
+	"os/exec"
+	"path/filepath"
+	"strings"
+	"sync"
+	"testing"
+	"time"
+)
+
+type raceWorkerOut struct {
+	Runs     int            `json:"runs"`
+	Attempts int            `json:"attempts"`
+	Stops    map[string]int `json:"stop_kinds"`
+	Notes    []string       `json:"notes"`
+	WallS    float64        `json:"wall_s"`
+}
+
+// TestRaceWorker runs C05 scenarios free-running; meaningful in the -race binary.
+func TestRaceWorker(t *testing.T) {
+	if os.Getenv("VSIM_MODE") != "raceworker" {
+		t.Skip("race worker mode only")
+	}
+	seed := envU64("VERIF_SEED", 1)
+	w := envInt("VSIM_WORKER", 0)
+	nw := envInt("VSIM_WORKERS", 1)
+	n := envInt("VSIM_RACE_RUNS", 100)
+	budget := time.Duration(envInt("VSIM_BUDGET_MS", 20000)) * time.Millisecond
+	setZone(w)
+	out := raceWorkerOut{Stops: map[string]int{}}
+	start := time.Now()
+	for k := 0; k < n && time.Since(start) < budget; k++ {
+		s := mix64(seed, uint64(5000000+w+k*nw))
+		fmt.Fprintf(os.Stderr, "RACE-RUN seed=%d\n", s)
+		spec := CaseSpec{Prop: "C05", Tier: "quick", Seed: s}
+		tape := NewTape(s)
+		sc := buildScenario(&spec, tape)
+		sc.ReadTimeout = false
+		for i := range sc.Attempts {
+			if sc.Attempts[i].Stop == stopTimeout {
+				sc.Attempts[i].Stop = stopCancel
+			}
+			out.Stops[sc.Attempts[i].Stop.String()]++
+			out.Attempts++
+		}
+		note := ExecuteFree(sc, tape)
+		if strings.Contains(note, "did not return") || strings.Contains(note, "blocked") {
+			if len(out.Notes) < 5 {
+				out.Notes = append(out.Notes, fmt.Sprintf("seed %d: %s", s, note))
+			}
+		}
+		out.Runs++
+	}
+	out.WallS = time.Since(start).Seconds()
+	b, _ := json.Marshal(out)
+	os.WriteFile(filepath.Join(os.Getenv("VSIM_OUTDIR"), fmt.Sprintf("race-%d-%s.json", w, os.Getenv("VSIM_RACE_TAG"))), b, 0o644)
+}
+
+// raceMode runs the race workers and classifies their reports.
 func raceMode(verifDir, outDir, replayDir, tier string, seed uint64, nw int) ([]ViolationOut, map[string]interface{}, []string) {
-	return nil, nil, nil
+	bin := os.Getenv("VSIM_RACE_BIN")
+	if bin == "" {
+		return nil, nil, []string{"race binary not built (VSIM_RACE_BIN unset)"}
+	}
+	perWorker := 130
+	budgetMs := 25000
+	procs := []int{4}
+	if tier == "thorough" {
+		perWorker = 2500
+		budgetMs = 240000
+		procs = []int{4, 16}
+	}
+	if v := envInt("VSIM_RACE_RUNS", 0); v > 0 {
+		perWorker = v
+	}
+	var viol []ViolationOut
+	var harness []string
+	sigCount := map[string]int{}
+	sigText := map[string]RaceReport{}
+	totalRuns, totalAtt := 0, 0
+	stops := map[string]int{}
+	var mu sync.Mutex
+	for _, gmp := range procs {
+		var wg sync.WaitGroup
+		for w := 0; w < nw; w++ {
+			wg.Add(1)
+			go func(w int) {
+				defer wg.Done()
+				cmd := exec.Command(bin, "-test.run", "^TestRaceWorker$", "-test.count", "1", "-test.timeout", "0")
+				tag := fmt.Sprintf("p%d", gmp)
+				cmd.Env = append(os.Environ(), "VSIM_MODE=raceworker", fmt.Sprintf("VSIM_WORKER=%d", w), fmt.Sprintf("VSIM_WORKERS=%d", nw),
+					"VSIM_OUTDIR="+outDir, fmt.Sprintf("VSIM_RACE_RUNS=%d", perWorker), fmt.Sprintf("VSIM_BUDGET_MS=%d", budgetMs),
+					fmt.Sprintf("GOMAXPROCS=%d", gmp), "GORACE=halt_on_error=0 exitcode=0 history_size=2", fmt.Sprintf("VERIF_SEED=%d", seed+uint64(gmp)),
+					"VSIM_RACE_TAG="+tag)
+				var stderr bytes.Buffer
+				cmd.Stderr = &stderr
+				cmd.Stdout = &stderr
+				err := cmd.Run()
+				log := stderr.String()
+				reports := parseRaceLog(log)
+				mu.Lock()
+				defer mu.Unlock()
+				b, e := os.ReadFile(filepath.Join(outDir, fmt.Sprintf("race-%d-%s.json", w, tag)))
+				if e != nil {
+					tail := log
+					if len(tail) > 3000 {
+						tail = tail[len(tail)-3000:]
+					}
+					harness = append(harness, fmt.Sprintf("race worker %d (GOMAXPROCS %d) failed: %v\n%s", w, gmp, err, tail))
+					return
+				}
+				var o raceWorkerOut
+				json.Unmarshal(b, &o)
+				totalRuns += o.Runs
+				totalAtt += o.Attempts
+				for k, v := range o.Stops {
+					stops[k] += v
+				}
+				for _, n := range o.Notes {
+					harness = append(harness, "race mode: "+n)
+				}
+				for _, r := range reports {
+					sigCount[r.Signature]++
+					if _, ok := sigText[r.Signature]; !ok {
+						sigText[r.Signature] = r
+					}
+				}
+			}(w)
+		}
+		wg.Wait()
+	}
+	for sig, r := range sigText {
+		if !libFrame(r.A) && !libFrame(r.B) {
+			harness = append(harness, "race report without a library frame (harness race?):\n"+r.Text)
+			continue
+		}
+		rf := map[string]interface{}{"property": "C05", "rule": "race", "signature": sig, "count": sigCount[sig],
+			"first_seen_in": r.Marker, "report": strings.Split(r.Text, "\n"),
+			"note": "race mode is free-running and cannot be replayed exactly; re-run `./check C05 quick` - the scenario seed in first_seen_in is executed again under the race detector"}
+		b, _ := json.MarshalIndent(rf, "", " ")
+		os.MkdirAll(replayDir, 0o755)
+		path := filepath.Join(replayDir, fmt.Sprintf("C05-race-%016x.json", hashStrings(sig)))
+		os.WriteFile(path, b, 0o644)
+		viol = append(viol, ViolationOut{"C05", "race", "data race: " + sig, path, 0})
+	}
+	stats := map[string]interface{}{"free_running_runs": totalRuns, "stream_attempts": totalAtt, "gomaxprocs": procs,
+		"race_reports_by_signature": sigCount, "stop_kinds": stops}
+	return viol, stats, harness
 }
